@@ -26,57 +26,33 @@ the target is kept here for reference:
 `commit` (TxPool::remove_committed_tx -> PoolMap::resolve_conflict) removes the input edge before the
 entry; the intermediate state is outside `InputsOK`, and the step lemma for it is not proved.
 -/
-import CkbVerif.Lemmas.Pool
+import CkbVerif.Lemmas.PoolEdge
+import CkbVerif.Lemmas.PoolLimit
 namespace CkbVerif.C11
 open CkbVerif.Pool
 
-/-- the operations of the model that the invariant theorem quantifies over -/
-inductive Op where
-  | add (t : Tx) (st : Status) (ts : Nat)
-  | rm (id : Nat)
-  | rmd (id : Nat)
-  | set (id : Nat) (st : Status)
-  | hdr (hs : List Nat)
-  | limit
-  | expire (order : List Nat)
-  | detach (ids : List Nat)
-  | submit (t : Tx) (st : Status) (ts : Nat)
+/-! `Op`, `step`, `run`, `empty` are defined in `Lemmas/PoolLift.lean` (all ten operations of the model,
+`commit` included). -/
 
-def step (s : Pool) : Op → Pool
-  | .add t st ts => (addEntry s t st ts).1
-  | .rm id => (removeEntry s id).1
-  | .rmd id => (removeWithDesc s id).1
-  | .set id st => setEntry s id st
-  | .hdr hs => (resolveHeaders s hs).1
-  | .limit => (limitSize s).1
-  | .expire order => removeExpired s order
-  | .detach ids => detachProposals s ids
-  | .submit t st ts => (submit s t st ts).1
+/-- The proved part of the pool invariant:
+    * `EdgeOK (edge s)`: `edges.inputs` lists exactly the inputs of the pooled transactions and is a function
+      (no two pooled transactions spend the same cell), ids are unique, the three per-status counters equal the
+      number of entries of that status, `total_tx_size` / `total_tx_cycles` equal the sums over the entries;
+    * `LimitOK s`: if neither bad pattern occurred in the history (`ghostBad = false`), every entry's
+      `ancestors_count` is at most `max_ancestors_count`. -/
+def PoolInvP (s : Pool) : Prop := EdgeOK (edge s) ∧ LimitOK s
 
-def run (s : Pool) (ops : List Op) : Pool := ops.foldl step s
+theorem poolInvP_empty (c : Cfg) (chain : List Nat) : PoolInvP (empty c chain) :=
+  ⟨edgeOK_empty c chain, fun _ _ h => by cases h⟩
 
-/-- an empty pool with any configuration -/
-def empty (c : Cfg) (chain : List Nat) : Pool := { cfg := c, chain := chain }
+/-- PARTIAL (see the header): every one of the ten operations — `commit` with its two-phase
+    `resolve_conflict` included — preserves `PoolInvP`, from every state, for every configuration
+    (code as written or any combination of the repairs). -/
+theorem pool_inv_step_partial (s : Pool) (op : Op) (h : PoolInvP s) : PoolInvP (step s op) :=
+  ⟨edgeOK_step s op h.1, limitOK_closed.step s op h.2⟩
 
-theorem inputsOK_empty (c : Cfg) (chain : List Nat) : InputsOK (empty c chain) :=
-  ⟨fun _ h => (by cases h), fun _ h => (by cases h), List.nodup_nil, List.nodup_nil⟩
-
-/-- PARTIAL (see the header): every operation preserves "edges.inputs = the inputs of the pooled
-    transactions, as a function" — for every state, configuration (also the repaired one) and argument. -/
-theorem pool_inv_step_partial (s : Pool) (op : Op) (h : InputsOK s) : InputsOK (step s op) := by
-  cases op with
-  | add t st ts => exact inputsOK_addEntry h t st ts
-  | rm id => exact inputsOK_removeEntry h id
-  | rmd id => exact (inputsOK_removeWithDesc h id).1
-  | set id st => exact inputsOK_setEntry h id st
-  | hdr hs => exact inputsOK_resolveHeaders h hs
-  | limit => exact inputsOK_limitSize h
-  | expire order => exact inputsOK_removeExpired order s h
-  | detach ids => exact inputsOK_detach ids s h
-  | submit t st ts => exact inputsOK_submit h t st ts
-
-theorem pool_inv_run_partial (c : Cfg) (chain : List Nat) (ops : List Op) : InputsOK (run (empty c chain) ops) := by
-  suffices ∀ s, InputsOK s → InputsOK (run s ops) from this _ (inputsOK_empty c chain)
+theorem pool_inv_run_partial (c : Cfg) (chain : List Nat) (ops : List Op) : PoolInvP (run (empty c chain) ops) := by
+  suffices ∀ s, PoolInvP s → PoolInvP (run s ops) from this _ (poolInvP_empty c chain)
   induction ops with
   | nil => exact fun _ h => h
   | cons op l ih => exact fun s h => ih _ (pool_inv_step_partial s op h)
@@ -85,8 +61,41 @@ theorem pool_inv_run_partial (c : Cfg) (chain : List Nat) (ops : List Op) : Inpu
 theorem no_double_spend_after_any_history (c : Cfg) (chain : List Nat) (ops : List Op)
     (a b : Entry) (ha : a ∈ (run (empty c chain) ops).entries) (hb : b ∈ (run (empty c chain) ops).entries)
     (o : OutPt) (oa : o ∈ a.tx.inputs) (ob : o ∈ b.tx.inputs) : a.tx = b.tx :=
-  (pool_inv_run_partial c chain ops).no_double_spend
+  (pool_inv_run_partial c chain ops).1.inputsOK.no_double_spend
     (List.mem_map.mpr ⟨a, ha, rfl⟩) (List.mem_map.mpr ⟨b, hb, rfl⟩) oa ob
+
+/-- After ANY history the per-status counts and the totals match the entries. -/
+theorem counts_and_totals_after_any_history (c : Cfg) (chain : List Nat) (ops : List Op) :
+    let s := run (empty c chain) ops
+    s.pending = (s.entries.filter (·.status = .pending)).length ∧
+    s.gap = (s.entries.filter (·.status = .gap)).length ∧
+    s.proposed = (s.entries.filter (·.status = .proposed)).length ∧
+    s.totalSize = (s.entries.map (·.tx.size)).sum ∧ s.totalCycles = (s.entries.map (·.tx.cycles)).sum := by
+  intro s
+  have h := (pool_inv_run_partial c chain ops).1
+  have hc : ∀ st, cntSt st (edge s).cores = (s.entries.filter (·.status = st)).length := by
+    intro st
+    simp only [cntSt, edge, List.map_map]
+    induction s.entries with
+    | nil => rfl
+    | cons e l ih =>
+      simp only [List.map_cons, List.sum_cons, List.filter_cons, Function.comp]
+      rw [ih]
+      by_cases hs : e.status = st
+      · have : (Entry.core e).2.1 = st := hs
+        simp [hs, this]; omega
+      · have : ¬ (Entry.core e).2.1 = st := hs
+        simp [hs, this]
+  refine ⟨h.cP.trans (hc _), h.cG.trans (hc _), h.cR.trans (hc _), ?_, ?_⟩
+  · have := h.size; simp only [edge, List.map_map] at this; exact this
+  · have := h.cycles; simp only [edge, List.map_map] at this; exact this
+
+/-- On every history in which neither bad pattern occurred, the maintained `ancestors_count` of every
+    entry respects `max_ancestors_count`. -/
+theorem ancestor_limit_after_clean_history (c : Cfg) (chain : List Nat) (ops : List Op)
+    (hclean : (run (empty c chain) ops).ghostBad = false) :
+    ∀ e ∈ (run (empty c chain) ops).entries, e.anc.count ≤ (run (empty c chain) ops).cfg.maxAnc :=
+  (pool_inv_run_partial c chain ops).2 hclean
 
 /-! ## concrete histories -/
 
@@ -147,6 +156,19 @@ theorem mid_witness :
     let s := run (empty cfg0 [0]) (chainOps ++ [.rm 11])
     aggOK s = false ∧ descOf s 10 = some ⟨2, 220, 0, 220⟩ ∧ ancOf s 12 = some ⟨2, 220, 0, 220⟩
       ∧ calcDesc s.links 10 = [] ∧ calcAnc s.links 12 = [] := by
+  decide +kernel
+
+/-- the F3 histories under the proposed repair of `record_entry_descendants` (work/C11-fix-F3.diff) are consistent -/
+theorem f3_repaired_witness :
+    let c := { cfg0 with fixF3 := true }
+    aggOK (run (empty c [0]) [.add tx11 .pending 1, .add tx10 .pending 2]) = true ∧
+    aggOK (run (empty c [0]) [.add tx10 .pending 1, .add tx12 .pending 2, .add tx11 .pending 3]) = true := by
+  decide +kernel
+
+/-- the remove-between history under the proposed repair of `remove_entry` (work/C11-fix-mid.diff) is consistent -/
+theorem mid_repaired_witness :
+    let s := run (empty { cfg0 with fixMid := true } [0]) (chainOps ++ [.rm 11])
+    aggOK s = true ∧ descOf s 10 = some ⟨1, 100, 0, 100⟩ ∧ ancOf s 12 = some ⟨1, 120, 0, 120⟩ := by
   decide +kernel
 
 def txA : Tx := { id := 10, inputs := [⟨0, 0⟩], deps := [⟨0, 4⟩], hdeps := [], nout := 1, size := 100, cycles := 0, fee := 100 }
